@@ -147,6 +147,23 @@ def buf(chk, fx):
                 chk.violation("BUF", site, "BUF:%s::%s" % (cls, m), "%s::%s %s; %s" % (cls, m, "; ".join(problems), why[m]))
             else:
                 chk.ok("BUF", site, "%s::%s: %s" % (cls, m, why[m]))
+    # the cstring_buffer constructor copies all N1 bytes of the literal (embedded NULs included)
+    for f in fx.need(B + "cstring_buffer::cstring_buffer"):
+        if f.o.get("implicit") or f.o.get("defaulted") or len(f.o["params"]) != 1:
+            continue
+        cn = Canon(f)
+        stmts = f.body.get("c") or []
+        calls = [cn.c(n) for n in walk(f.body) if A.is_call(n) and n["callee"]["n"] == "copy_array"]
+        loops = [n for n in walk(f.body) if n.get("k") in ("ForStmt", "WhileStmt", "DoStmt", "CXXForRangeStmt", "IfStmt")]
+        if len(calls) == 1 and calls[0].startswith("copy_array(data, $0, ") and not loops and len(stmts) == 1:
+            chk.ok("BUF", A.site(f), "cstring_buffer copies the whole character array (copy_array over all N1 indices)")
+        elif loops:
+            chk.violation("BUF", A.site(f), "BUF:cstring_buffer:ctor",
+                          "the cstring_buffer constructor copies the text with its own loop/condition instead of all N1 "
+                          "bytes: text after an embedded NUL is lost while the other buffers keep it")
+        else:
+            chk.incomplete("cstring_buffer constructor: copy not recognised (%s)" % calls)
+        break
     # no mutable / static state in buffers: part of C15's IMM-2/IMM-6 (all records)
 
 
